@@ -1,42 +1,194 @@
-"""Property -> rules."""
+"""Property -> rules. Every claimed property decides a *structural* part (stated in `text`), not the whole behaviour."""
+from functools import partial
+
 from . import engine
-from .rules import tables, errflow
+from .rules import (tables, errflow, stop, scope, fold, hashorder, eqfield, cast, lock, witness, orpat, guard, parsepure,
+                    kernel, evalorder, layer, export, panic, misc)
 
-TRUST_COMMON = ["rustc (type checking, MIR construction, Instance resolution)", "pest / pest_meta (PEG + Pratt semantics)"]
-
-PROPS = {}
-
+TRUST = ["rustc: type checking, MIR construction, Instance resolution, auto traits",
+         "pest / pest_meta: PEG semantics, silent/atomic rule semantics, PrattParser precedence climbing",
+         "std: wrapping_* arithmetic, RwLock, slice / iterator order"]
 
 NOT_APPLICABLE = {
     "C10": "subtype laws (reflexivity, transitivity, bounds, value soundness) quantify over an infinite type universe: deciding "
            "them needs induction or enumeration, not a shape of the code; the only structural surrogate (arm order of "
-           "Type::matches) would be a frozen copy of the function, i.e. a false alarm in waiting (DESIGN.md C10)",
+           "Type::matches) would be a frozen copy of the function, i.e. a false alarm in waiting (DESIGN.md section 4, C10)",
     "C11": "the iterator operators are written in SimpleSL source embedded in Rust string literals (MAP, FILTER, ITER, the "
            "TypeFilter template, stdlib/operators.rs): Rust-level static analysis cannot see inside them, and equality of the "
-           "remaining Rust loops to a fold is value-level (DESIGN.md C11)",
+           "remaining Rust loops to a fold is value-level (DESIGN.md section 4, C11)",
     "C15": "a relation between a printer (Display derives with inline conditionals) and a PEG parser over all types: "
-           "value-level round trip; the only structural surrogate would be a source-fragment match (DESIGN.md C15)",
+           "value-level round trip; the only structural surrogate would be a source-fragment match (DESIGN.md section 4, C15)",
 }
 
-
-def prop(pid, rules, explanation, assumptions, trusted=None, level_text="", level_note="", technique="", design_ref=""):
-    PROPS[pid] = dict(rules=rules, explanation=explanation, assumptions=assumptions, trusted=trusted or TRUST_COMMON,
-                      level_text=level_text or explanation, level_note=level_note or "; ".join(assumptions),
-                      technique=technique, design_ref=design_ref or "DESIGN.md section 4, " + pid)
+PROPS = {}
 
 
-prop("C14", [tables.run_precedence],
-     "Static table agreement (R-TABLES): the documented 14-level precedence table, the PRATT_PARSER levels "
-     "(recovered from the MIR of its lazy_static initialiser), the grammar's prefix/infix/postfix operator choices "
-     "(parsed with pest_meta), the Rule->BinOperator map with the operators' Display tokens, and the dispatch arms of "
-     "create_prefix/create_postfix/create_infix are compared row by row; every ordered pair of operator literals is "
-     "checked for PEG shadowing (an earlier literal that is a prefix of a later one splits the longer operator). "
-     "Decides the property given pest's Pratt parser implements precedence climbing as documented.",
-     ["pest's PrattParser groups by the registered level order and Assoc", "PEG choice is ordered",
-      "docs/operators.md is the documented table; four operators it omits are placed as the property statement says"],
-     technique="static table agreement: docs table / Pratt table (from MIR) / pest grammar / operator enum / dispatch arms + PEG literal shadowing",
-     level_text="Decides the property for all expressions, given pest's Pratt parser: 52 operator rows are compared across five "
-                "sources and ~900 ordered literal pairs are checked for shadowing; nothing is executed.")
+def prop(pid, rules, text, technique, note):
+    PROPS[pid] = dict(rules=rules, explanation=text, assumptions=[note], trusted=TRUST, level_text=text, level_note=note,
+                      technique=technique, design_ref="DESIGN.md section 4, " + pid)
+
+
+def scope_prefix(*prefixes):
+    return lambda bid: bid.startswith(prefixes)
+
+
+KERNEL_SCOPE = scope_prefix("instruction::bin_op::", "instruction::prefix_op::", "<instruction::bin_op::")
+INDEX_SCOPE = scope_prefix("instruction::at::", "instruction::slicing::", "<instruction::slicing::", "stdlib::len")
+STDLIB_SCOPE = scope_prefix("stdlib::", "<stdlib::", "variable::try_from::", "<variable::Variable as std::convert::From<std::io")
+
+prop("C01",
+     [guard.run, guard.run_mustcall, misc.run_fnexit, fold.run, scope.run],
+     "Decides the structural half of type soundness: all 43 static checks the soundness argument leans on exist, are tested "
+     "before every success value of their creation function and cannot be bypassed (R-GUARD, R-MUSTCALL); falling off a function "
+     "body yields () and MissingReturn stands in front of that for non-() functions (R-FNEXIT); the Type queries that compute "
+     "result types treat all union members alike (R-FOLD); no operator runs a callee in the caller's scope (R-SCOPE). It does NOT "
+     "decide that each return_type agrees with its exec (value-level; known counter-examples D7, D11 in DESIGN.md).",
+     "must-pass-through / dominance of guard tests on MIR CFG, who-constructs tables, sibling agreement of union folds",
+     "guard conditions are taken as written (a weakened but present condition is not detected)")
+
+prop("C02",
+     [partial(panic.run, name="R-PANIC"), errflow.run, stop.run, scope.run, orpat.run, lock.run, guard.run_execerror],
+     "Decides: the complete inventory of panic-capable sites (383 today) is matched per function and signature to a reviewed "
+     "justification naming the check that discharges it (R-PANIC); no error or control signal is dropped (R-ERRFLOW); ExecStop is "
+     "raised and caught only where the control-flow table says, with the documented routing (R-STOP); no callee declares into the "
+     "caller's scope (R-SCOPE); no universal check is written as an overlapping or-pattern (R-ORPAT); nothing can panic while a "
+     "cell's lock is held other than reviewed kernel defaults (R-LOCK); each of the six run-time errors is raised only by the "
+     "reviewed functions (R-GUARD-X). Does NOT decide that the downcast / type-query / kernel-default sites are unreachable: that "
+     "is C01's value-level half.",
+     "panic-site inventory as per-function multiset vs reviewed table; error-flow def-use; who-raises / who-catches tables",
+     "a frozen table turns every NEW panic-capable site into an alarm by design")
+
+prop("C03",
+     [tables.run_dispatch, tables.run_precedence, partial(panic.run, name="R-PANIC"), guard.run_mustcall, fold.run, errflow.run, parsepure.run],
+     "Decides: every alternative the grammar can hand to a pair-walking function has an arm there (R-TABLES-D: primary, line/stm/"
+     "body, type, match_arm, int, var_from_str) and every operator rule is registered in the Pratt parser (R-TABLES); every "
+     "panic-capable site on the parse path is a reviewed row (R-PANIC); Type queries are guarded by their admissibility test "
+     "(R-MUSTCALL) and treat union members alike (R-FOLD); folding failures are propagated as errors, never unwrapped (R-ERRFLOW); "
+     "parsing never executes instructions (R-PARSEPURE). Child-sequence shape (unwrap of Option<Pair>) is carried as reviewed "
+     "grammar-shape rows.",
+     "grammar <-> dispatch-arm table agreement (pest_meta + MIR switch arms), panic inventory, must-call",
+     "stack / memory exhaustion excluded by the property")
+
+prop("C04",
+     [parsepure.run, kernel.run, guard.run_execerror, misc.run_retain],
+     "Decides: folding cannot have effects, create cells or run user code (R-PARSEPURE: no path from parse / create / recreate to "
+     "Exec::exec; cells built only by Mut::exec / of_type); the fold route and the run route of every operator end in the same "
+     "kernel function (R-KERNEL, 62 rows); the early-error arms of the fold path raise only the variant the kernel raises "
+     "(R-GUARD-X); only constant statements are dropped (R-RETAIN). Does NOT decide equality of results of twin programs.",
+     "call-graph reachability with cut edges, kernel-reuse table over MIR switch arms",
+     "kernel reuse is a sufficient mechanism, not a necessary one; And/Or folds are re-implementations (reviewed)")
+
+prop("C05",
+     [hashorder.run_hash, hashorder.run_order, hashorder.run_nondet, fold.run],
+     "Decides: no Hash impl of a crate type observes hash iteration order (R-HASH); every iteration over a HashMap / HashSet / "
+     "MultiType ends in an order-insensitive consumer, a commutative fold, a display-only context or a reviewed row "
+     "(R-HASHORDER, def-use from each iteration start to its terminal consumers); no clock / env / thread / RandomState call "
+     "outside stdlib::{fs,io} (R-NONDET); union folds query all members alike (R-FOLD).",
+     "iterator def-use tracing to terminal consumers, Hash-impl reachability, forbidden-call scan",
+     "commutativity of Type::concat / conjoin is a reviewed reason, not proved")
+
+prop("C06",
+     [scope.run, layer.run],
+     "Decides: Function::exec (runs a body in the given scope) is called only from exec_with_args (fresh interpreter holding self + "
+     "params) and the host-call harness (R-SCOPE); each scoping construct creates its layer at check, fold and run time and runs "
+     "its inside against the new layer; capture = recreate against the creating interpreter; modules are built from exactly the "
+     "dropped layer; lower_layer is a shared reference and insert touches only the own map (R-LAYER, 26 obligations). Does NOT "
+     "decide substitution = snapshot semantics for every nesting.",
+     "who-may-call, scope pairing with def-use of the layer local and liveness", "")
+
+prop("C07",
+     [evalorder.run],
+     "Decides for the 11 Exec bodies that order operands: order by must-precede on the CFG, at most once per path, short-circuit by "
+     "control dependence, branch exclusivity by mutual unreachability, sequences by absence of reordering adaptors. Order inside "
+     "slice::Iter / zip / collect is trusted.",
+     "dominance / reachability on MIR CFG keyed by receiver field of each exec call", "")
+
+prop("C08",
+     [partial(panic.run, scope=KERNEL_SCOPE, name="R-PANIC"), cast.run, guard.run_execerror, kernel.run, tables.run_precedence],
+     "Decides: integer kernels contain no checked raw arithmetic (a `+` instead of wrapping_add appears as a new Assert(Overflow) "
+     "site) and no unreviewed panic site (R-PANIC over bin_op / prefix_op); no value-changing cast of an operand (R-CAST, sign-test "
+     "guards re-verified by dominance); each documented error arm exists and only there (R-GUARD-X); run, fold and compound "
+     "assignment share one kernel per operator (R-KERNEL); operator <-> token <-> rule agreement (R-TABLES). std's wrapping_* / "
+     "f64 semantics are trusted; numeric results are not decided.",
+     "assert-terminator inventory, cast table with dominance-verified guards, kernel table", "")
+
+prop("C09",
+     [misc.run_units, partial(panic.run, scope=INDEX_SCOPE, name="R-PANIC"), orpat.run, cast.run,
+      partial(guard.run, only_variants=("CannotIndexWith", "CannotIndexInto", "CannotSlice"))],
+     "Decides: unit agreement (at::exec, Slicing::exec and std.len count chars, none measures bytes; negative indices are "
+     "normalised with the same len), no unchecked index in at::exec, both bounds directions raise IndexOutOfBounds, all three "
+     "slice bounds are type-checked (R-ORPAT, R-GUARD), index casts are exact (R-CAST). Does NOT decide the index arithmetic or "
+     "slyce's selection.",
+     "forbidden-callee scan, panic inventory, cast guards", "")
+
+prop("C12",
+     [stop.run, evalorder.run,
+      partial(guard.run, only_variants=("BreakOutsideLoop", "ContinueOutsideLoop", "ReturnOutsideFunction", "WrongReturn",
+                                        "MatchNotCovered", "WrongCondition", "MissingReturn")),
+      partial(tables.run_dispatch, only=("match_arm", "stm", "line", "body"))],
+     "Decides: a single catch site per signal (Loop::exec for Break/Continue, Function::exec for Return) with the documented "
+     "routing, sugared loops emit Break inside a Loop, in_loop set/restored/reset (R-STOP); placement and exhaustiveness guards "
+     "exist and dominate success (R-GUARD); arm loop returns at the first cover, branches are exclusive (R-EVALORDER); all three "
+     "match-arm forms and all statements have a handler (R-TABLES-D). Does NOT decide which arm a given value selects.",
+     "who-constructs / who-matches on ExecStop, CFG routing checks", "")
+
+prop("C13",
+     [parsepure.run, partial(witness.run, only=("W3MutNotClone",)), lock.run, guard.run_mustcall,
+      partial(guard.run, only_variants=("WrongInitialization", "CannotDo2")), fold.run, evalorder.run],
+     "Decides: a cell is built only by executing `mut` (or as a type default), never while parsing/folding (R-PARSEPURE); Mut is "
+     "not Clone, Variable::Mut holds Arc<Mut> (witness); assign::can_be_used asks mut_element_type and Type::matches, "
+     "WrongInitialization guards creation (R-MUSTCALL, R-GUARD); update = read, kernel, store under one write guard, store after "
+     "success in try_exec (R-LOCK); value read after the right operand (R-EVALORDER). Does NOT decide the values stored.",
+     "who-constructs, compile_fail witness, lock live-region analysis", "")
+
+prop("C14",
+     [tables.run_precedence],
+     "Decides the property for all expressions, given pest's Pratt parser: 52 operator rows are compared across the docs table, "
+     "the PRATT_PARSER levels (recovered from MIR), the grammar's operator choices, the Rule->BinOperator map with Display tokens "
+     "and the dispatch arms; ~900 ordered literal pairs are checked for PEG shadowing. Nothing is executed.",
+     "static table agreement: docs / Pratt table (MIR) / pest grammar / operator enum / dispatch arms + PEG literal shadowing",
+     "docs/operators.md is the documented table; four operators it omits are placed as the property statement says")
+
+prop("C16",
+     [partial(witness.run, only=("W1SendSync",)), orpat.run_unsafe, lock.run, lock.run_global],
+     "Decides: Code, Variable, Function, Type, Mut, Interpreter<'static> are Send + Sync (compile-pass witness with a failing twin); "
+     "no user-written unsafe in any workspace crate (HIR scan), so data-race freedom is rustc's guarantee; every static is "
+     "immutable after initialisation (R-GLOBAL); compound assignment is one write-guard region (=> N increments add N), no lock is "
+     "acquired and the interpreter is not re-entered while a guard is live (=> no lock-order cycle) (R-LOCK).",
+     "compile-pass/compile_fail witnesses, HIR unsafe scan, lock live-region + transitive-callee analysis",
+     "std::sync::RwLock semantics trusted")
+
+prop("C17",
+     [partial(witness.run, only=("W2CodeStatic", "W4ExecIsolated")), parsepure.run, misc.run_direction,
+      partial(guard.run, only_variants=("WrongNumberOfArguments", "WrongArgument")), guard.run_mustcall],
+     "Decides: isolation by type (Code: 'static; Code::exec(&self) builds its own interpreter; parse takes &Interpreter); "
+     "repeatability's structural half (no execution at parse time, cells only from Mut::exec); host calls re-check arity and each "
+     "argument in the same direction as in-language calls and create_call goes through create_from_variables. Does NOT decide "
+     "REPL = batch (a relation over histories).",
+     "compile_fail witnesses, def-use on the operands of Type::matches, must-call", "")
+
+prop("C18",
+     [export.run, partial(panic.run, scope=STDLIB_SCOPE, name="R-PANIC"), cast.run],
+     "Decides for all 77 exports: declared parameter names = names the generated closure imports, in order; TypeOf type of each "
+     "undecorated parameter = its TryInto target; TypeOf kind = kind tested by TryFrom<&Variable> (8 rows); error-struct keys "
+     "agree; every panic-capable site under stdlib is a reviewed row (fs / io bodies have none); stdlib casts are listed with "
+     "their documented semantics. Does NOT decide that helpers return what docs/stdlib.md says.",
+     "MIR extraction of generated Function::new parameter lists vs generated closures", "")
+
+prop("C19",
+     [eqfield.run],
+     "Decides: Array equality reads `elements` only; Variable equality compares Function / Mut by Arc::ptr_eq and the rest through "
+     "the payload's PartialEq; `ne` is not overridden; ==, != and match value arms call exactly that PartialEq. Symmetry / "
+     "reflexivity as laws are not decided.",
+     "field-projection and callee inspection of the PartialEq impls", "")
+
+prop("C20",
+     [partial(tables.run_dispatch, only=("var_from_str", "int")), misc.run_render, partial(panic.run, scope=scope_prefix("<variable::Variable as std::convert::TryFrom<pest", "<variable::Variable as std::str::FromStr"), name="R-PANIC")],
+     "Decides the table clauses: every alternative of the value-literal grammar has a constructor arm in Variable::try_from(Pair); "
+     "int literal forms are parsed with radix 2/8/10/16 matching their prefixes and overflow is an Err; arrays / tuples render "
+     "elements through Variable::debug and debug uses {:?} for int / float / string. The print/parse round trip itself (escaping, "
+     "float text, MIN_INT) is value-level and NOT decided.",
+     "grammar <-> constructor-arm agreement, callee inspection of the rendering functions", "")
 
 
 def run(pid, tier, seed):
